@@ -123,6 +123,17 @@ def one(ctx, data, meta=None, opts=((False, True), (False, False))):
     ctx.evaluations += 1; good = True
     parts = src.parts_of(data); cps = src.content_parts(data)
     feats = list(meta['features']) if meta else []
+    # the hypothesis of C02_siblings / C02_items (Props/C02BodyStray), evaluated by the Lean model on the children of every part's body
+    try:
+        v = ctx.drv.ask({**pk.model_case(data, False, True)[0], 'op': 'valid'})
+        its = v.get('<items>') if isinstance(v, dict) else None
+        if isinstance(its, dict):
+            for path, ok in its.items():
+                ctx.count('itemsOK holds for the part (hypothesis of C02_siblings: paragraphs, regular tables, ignored markup, groups of stray inline content)' if ok is True
+                          else 'itemsOK false for the part (C02_siblings does not apply: nested tables, text boxes, content controls, ...)')
+            if v.get('<groups>'): ctx.count('groups of inline content outside paragraphs (C02_stray_group)', v['<groups>'])
+    except Exception:
+        pass
     for html, dup, i, m in observe(ctx, data, opts, want=['plain', 'text']):
         case = case_payload(data, html=html, dup=dup)
         if not compare_keys(ctx, 'plain view', data, html, dup, i, m, VIEWS + ['text']): good = False
